@@ -66,6 +66,7 @@ func PairAlphabet() [][]ops.Op {
 		{{K: "mkdirall", P: "/a/d/e"}},
 		{{K: "stat", P: "/a/f"}},
 		{{K: "hopen", P: "/a", N: os.O_RDONLY, H: 0}, {K: "hlist", H: 0}, {K: "hclose", H: 0}},
+		{{K: "hopen", P: "/a/f", N: os.O_RDONLY, H: 0}, {K: "hread", H: 0, N: 64}, {K: "hclose", H: 0}},
 	}
 }
 
